@@ -73,6 +73,11 @@ def trait_call(I, st, trait, callee, argv, depth, t, dty):
         st.ev('call', key, fa, span(t))
         yield st, Ok(fa[0][2][0])
         return
+    if I.honest and key == 'SecretKey::deserialize' and fa[0][0] == 'app' and fa[0][1] == 'SecretKey::serialize':
+        # the external key's own codec round-trips (what "the same key" means for a key that lives elsewhere; DESIGN 3.2-7c)
+        st.ev('call', key, fa, span(t))
+        yield st, Ok(fa[0][2][0])
+        return
     if I.honest and key == 'KeGroup::diffie_hellman' and fa[0][0] == 'app' and fa[0][1] == 'KeGroup::public_key':
         # DESIGN 3.2-7a: DH(sk_a, PK(sk_b)) = DH(sk_b, PK(sk_a)) (assumed group law; the pair is sorted)
         st.ev('call', key, fa, span(t))
